@@ -219,6 +219,8 @@ class StmtMixin:
                 return 'concrete', (list(it.items) if it.kind != 'dict' else list(it.items.keys()))
             if it.kind == 'list':
                 return 'symbolic', SV(it.term, TSeq(it.elem))
+            if it.kind == 'set' and getattr(self, 'set_iteration_by_membership', True):
+                return 'symset', it
             if it.kind == 'set':
                 # a set is iterated in *some* order: an arbitrary sequence with exactly these members
                 seq = self.fresh('order', TSeq(it.elem))
@@ -471,58 +473,102 @@ class StmtMixin:
         self.exec_block(node.orelse, fr)
 
     def summarise_loop(self, node, fr, kind, space):
-        """loops without an invariant: only the 'search' shape is summarised automatically:
-        the body assigns nothing that outlives an iteration and only falls through, raises or returns."""
-        if kind != 'symbolic':
+        """Loops without an invariant: only the stateless *search* shape is summarised automatically.
+        The body assigns nothing that outlives an iteration, mutates nothing, has no break, and every
+        iteration either falls through or leaves the function (raise / return of a constant).  Then
+          * the loop leaves the function iff some element makes the body leave (explored with one
+            arbitrary such element), and
+          * it falls through iff every element falls through (a universally quantified fact)."""
+        if kind not in ('symbolic', 'symset'):
             raise Untranslatable(f'loop over {kind} at {fr.qualname}:{node.lineno} needs an invariant')
         names, mutated = self.modified_locals(node.body, fr)
         tnames = {n.id for n in ast.walk(node.target) if isinstance(n, ast.Name)}
-        live_after = names - tnames
-        if mutated or any(n in fr.env for n in live_after):
-            raise Untranslatable(f'loop at {fr.qualname}:{node.lineno} needs an invariant')
-        for n in ast.walk(node):
-            if isinstance(n, (ast.Break,)):
-                raise Untranslatable(f'loop with break at {fr.qualname}:{node.lineno} needs an invariant')
-        seq: SV = space
-        # either some element (the first one) makes the body leave the function, or none does
+        if mutated or (names - tnames):
+            raise Untranslatable(f'loop at {fr.qualname}:{node.lineno} over a sequence of unknown length '
+                                 f'needs an invariant (it updates {sorted(mutated | (names - tnames))})')
+        for b in node.body:
+            for n in ast.walk(b):
+                if isinstance(n, (ast.Break, ast.Yield, ast.YieldFrom)):
+                    raise Untranslatable(f'loop with break/yield at {fr.qualname}:{node.lineno} needs an invariant')
         which = self.ex.choose([z3.BoolVal(True), z3.BoolVal(True)], ['search:hit', 'search:miss'])
+        if kind == 'symset':
+            sbox: Box = space
+            sterm = sbox.term
+            ety = sbox.elem
+        else:
+            seq: SV = space
+            n = z3.Length(seq.term)
+            ety = seq.ty.elem
+        fold = None
+        if kind == 'symbolic':
+            # "every element falls through" as the fused all-fold over the sequence: the same function
+            # a spec written as all(...)/any(...) over that sequence denotes
+            ph = z3.Const('comp!elem', ety.z3sort())
+            cond_ph = self.fallthrough_condition(node, fr, SV(ph, ety, oid=('elem', 'all')))
+            fold = self.fused_fold(False, ('comp', cond_ph, None, ph, ety, TBool(), seq.term))
         if which == 0:
-            i = self.fresh('i', TInt())
-            self.ex.assume(z3.And(i.term >= 0, i.term < z3.Length(seq.term)))
-            x = SV(seq.term[i.term], seq.ty.elem, oid=('elem', self.ex.fresh_name('x')))
+            if kind == 'symset':
+                x = self.fresh('member', ety)
+                self.ex.assume(z3.IsMember(x.term, sterm))
+            else:
+                i = self.fresh('i', TInt())
+                self.ex.assume(z3.And(i.term >= 0, i.term < n))
+                self.ex.assume(z3.Not(fold))
+                x = SV(seq.term[i.term], ety, oid=('elem', self.ex.fresh_name('x')))
             self.assign(node.target, x, fr)
-            self.search_hits.append((fr.qualname, node.lineno))
-            self.exec_block(node.body, fr)
+            try:
+                self.exec_block(node.body, fr)
+            except ContinueSig:
+                pass
+            except ReturnSig as r:
+                if not is_concrete(r.value):
+                    raise Untranslatable('search loop returning a value that depends on the element')
+                raise
             # falling through: this element is not a hit, so this path adds nothing
             raise PathCut()
-        # miss: for every element the body falls through; expressed with a universally quantified element
-        j = z3.Int(self.ex.fresh_name('j'))
-        xj = SV(seq.term[j], seq.ty.elem, oid=('elem', 'all'))
-        cond = self.fallthrough_condition(node, fr, xj)
-        self.ex.assume(z3.ForAll([j], z3.Implies(z3.And(j >= 0, j < z3.Length(seq.term)), cond)))
+        if kind == 'symset':
+            m = z3.Const(self.ex.fresh_name('m'), ety.z3sort())
+            cond = self.fallthrough_condition(node, fr, SV(m, ety, oid=('elem', 'all')))
+            self.ex.assume(z3.ForAll([m], z3.Implies(z3.IsMember(m, sterm), cond), patterns=[z3.IsMember(m, sterm)]))
+        else:
+            j = z3.Int(self.ex.fresh_name('j'))
+            xj = SV(seq.term[j], ety, oid=('elem', 'all'))
+            cond = self.fallthrough_condition(node, fr, xj)
+            self.ex.assume(z3.ForAll([j], z3.Implies(z3.And(j >= 0, j < n), cond)))
+            self.ex.assume(fold)
         self.exec_block(node.orelse, fr)
 
     def fallthrough_condition(self, node, fr, x):
-        """condition under which one execution of the loop body with element x falls through"""
-        from .core import Explorer
-        # explore the body in a sub-explorer sharing nothing but the current path condition
-        sub = self.sub_interp(list(self.ex.st.pc))
+        """condition (over x and the current state) under which one run of the loop body falls through"""
+        sub = self.sub_interp(list(self.ex.base_hyps) + list(self.ex.st.pc))
+        sub.in_clause = self.in_clause
+        sub.fuv = self.fuv
+        sub.fuv_name = self.fuv_name
+        sub.current_contract = self.current_contract
+        sub.depth = self.depth
+        sub._loop_ord_by_line = self._loop_ord_by_line
         env = dict(fr.env)
+        base = len(self.ex.base_hyps) + len(self.ex.st.pc)
 
         def body(ex):
             nfr = Frame(dict(env), fr.globs, fr.qualname, fr.closure)
             nfr.assigned_names = getattr(fr, 'assigned_names', set())
             sub.assign(node.target, x, nfr)
-            sub.exec_block(node.body, nfr)
-            return None
+            try:
+                sub.exec_block(node.body, nfr)
+            except ContinueSig:
+                return 'fall'
+            except ReturnSig:
+                return 'return'
+            return 'fall'
         results = sub.ex.explore(body)
         conds = []
         for kind, payload, st in results:
-            npc = st.pc[len(self.ex.st.pc):] if False else st.pc
-            c = z3.And(*npc) if npc else z3.BoolVal(True)
-            if kind == 'ret' and payload is None and not getattr(st, 'returned', False):
-                conds.append(c)
-        self.obligations.extend(sub.obligations)
+            if kind == 'ret' and payload == 'fall':
+                conds.append(z3.And(*st.pc) if st.pc else z3.BoolVal(True))
+        # safety obligations met while exploring the body belong to this function as well
+        for ob in sub.obligations:
+            self.obligations.append(ob)
         return z3.Or(*conds) if conds else z3.BoolVal(False)
 
     # ------------------------------------------------------------------ comprehensions
